@@ -37,6 +37,7 @@ Transparent(o) ==
   /\ ~o.box
   /\ o.intact
   /\ o.nest_eq
+  /\ o.raw_eq          \* the un-traced call (plain arguments) returns what numpy itself returns for the same call
 \* the spec's own shape calculus agrees with NumPy (a disagreement is a specification error, not a violation)
 ShapeCalcOK(o) == o.oshape_spec = <<-1>> \/ o.oshape_spec = o.out_shape
 
@@ -46,6 +47,7 @@ SecondOrder(o) == /\ LinearAtZero(o)
                   /\ o.second_checked => (o.second_nbad = 0 /\ o.second_sym_bad = 0 /\ o.second_num_bad = 0 /\ ~o.second_box)
 
 Holds(prop, o) == CASE prop = "C01" -> RevExact(o)
+                    [] prop = "C03" -> RevExact(o) /\ FwdExact(o)   \* gathers with repeated entries: the sum over the multi-edges of one operation
                     [] prop = "C02" -> FwdExact(o)
                     [] prop = "C04" -> Adjoint(o)
                     [] prop = "C05" -> GradInArgSpace(o)
